@@ -7,13 +7,16 @@ Open Scope Z_scope.
 (* finite x, y, u (u non-zero): the receiver holds the exact x*y+u rounded once, with the
    IEEE sign rule for an exactly zero sum; the same statement covers the receiver being u
    itself (zu = true).  Hypothesis forced by the code and kept visible: the exact product's
-   magnitude lies in the finite range (outside it: known finding K3). *)
+   magnitude lies in the finite range (outside it: known finding K3).  Resource bounds
+   (the code counts digits in uint32): digits x + digits y, and `fma_span x y u` =
+   max(digits x + digits y, digits u) + |(exp x + exp y - digits x - digits y) - (exp u - digits u)|,
+   the width of the aligned final addition (L3/FmaProofs.v). *)
 Theorem C03_fma : forall zu z x y u,
   WF x -> WF y -> WF u -> dform x = Ffinite -> dform y = Ffinite -> dform u = Ffinite ->
   0 <= prec z <= MaxPrec -> (zu = true -> z = u) ->
   mdigits (mant x) + mdigits (mant y) < 4294967296 - 18 ->
   (scaled 1 (MinExp - 1) <= mag x * mag y)%Q -> (mag x * mag y < scaled 1 MaxExp)%Q ->
-  (forall p', WF p' -> dform p' = Ffinite -> (mag p' == mag x * mag y)%Q -> add_span p' u + 40 < 4294967296 - 18) ->
+  fma_span x y u + 58 < 4294967296 - 18 ->
   AddPost (eff_prec3 z x y u) (dmode z)
           ((if xorb (neg x) (neg y) then - (mag x * mag y) else mag x * mag y) + sval u)
           (FMA zu z x y u).
@@ -32,6 +35,34 @@ Print Assumptions C03_fma_zero_addend.
    FMA(1e1073741824, 1e1073741823, -5e2147483646) = +Inf is replayed by harness/props/C03.py
    against the code on every run (KNOWN-FINDING K3).  Aliasing of z with x or y does not occur in
    the value-level model (operands are read before the receiver is written); z == u is the zu flag. *)
+
+(* a concrete sufficient condition for the two range hypotheses *)
+Theorem C03_fma_range_sufficient : forall x y, WF x -> WF y -> dform x = Ffinite -> dform y = Ffinite ->
+  MinExp + 1 <= exp x + exp y <= MaxExp ->
+  (scaled 1 (MinExp - 1) <= mag x * mag y)%Q /\ (mag x * mag y < scaled 1 MaxExp)%Q.
+Proof. exact FMA_range_sufficient. Qed.
+Print Assumptions C03_fma_range_sufficient.
+
+(* Non-vacuity of C03_fma: the theorem is APPLIED to concrete operands (1.1 * 1.1 - 1.2 at
+   precision 2, receiver distinct from and equal to the addend) and every hypothesis is
+   discharged; the conclusion then pins the result down *)
+Example C03_fma_instance :
+  let x := mkDec [1100000000000000000] 1 2 ToNearestEven Exact Ffinite false in     (* 1.1 *)
+  let u := mkDec [1200000000000000000] 1 2 ToNearestEven Exact Ffinite true in      (* -1.2 *)
+  let z := mkDec [] 0 2 ToNearestEven Exact Fzero false in
+  AddPost 2 ToNearestEven (mag x * mag x + sval u) (FMA false z x x u) /\
+  AddPost 2 ToNearestEven (mag x * mag x + sval u) (FMA true u x x u).
+Proof.
+  intros x u z.
+  assert (Wx : WF x) by reflexivity. assert (Wu : WF u) by reflexivity.
+  destruct (C03_fma_range_sufficient x x Wx Wx eq_refl eq_refl ltac:(cbn [exp x]; unfold MinExp, MaxExp; lia)) as [Hlo Hhi].
+  split.
+  - apply (C03_fma false z x x u); try assumption; try reflexivity.
+    + cbn [prec z]. unfold MaxPrec. lia.
+    + discriminate.
+  - apply (C03_fma true u x x u); try assumption; try reflexivity.
+    cbn [prec u]. unfold MaxPrec. lia.
+Qed.
 
 (* FMA differs from Mul followed by Add exactly when the intermediate rounding matters *)
 Example C03_examples :
